@@ -65,6 +65,8 @@ def get_hopt_table(lmax, cvect, wvect, rvect, uf, ub):
         for m in range(mmax + 1):
             opt[k][0][m] = ub
             optp[k][0][m] = ub
+        if lmax < 1:
+            continue
         for m in range(mmax + 1):
             if (m == 0) and (k == 0):
                 continue
